@@ -11,6 +11,7 @@ from .. import templates as T
 from ..core import AnalysisError, FuncInfo, Repo, unparse
 from ..prov import callee_name
 from ..report import Finding, RuleResult
+from . import _c08_util as U
 
 EXPLANATION = (
     "C08.fields: a backward slice from each printer's result (assignments, loop targets, append/extend, controlling tests, methods and "
@@ -48,9 +49,9 @@ CONTROL_OK = {"is_positive", "is_init"}
 def rule_fields(repo: Repo, rid: str, table) -> RuleResult:
     r = RuleResult(rid, "each printer's result depends on every declared field of what it prints", "the exported text carries the whole object")
     for spec, root, cls, required, excluded in table:
-        f = L.fn(repo, spec)
+        f = U.fn(repo, spec)
         rootname = f.self_name if root == "self" else root
-        got = F.slice_fields(repo, f, rootname, cls, control=False) | (F.slice_fields(repo, f, rootname, cls) & CONTROL_OK)
+        got = U.slice_fields(repo, f, rootname, cls, control=False) | (U.slice_fields(repo, f, rootname, cls) & CONTROL_OK)
         r.site(f.qn)
         declared = set(repo.declared_fields(cls)) - {"logger"}
         new_fields = declared - required - set(excluded)
@@ -78,11 +79,31 @@ def _fn_literals(repo: Repo, f: FuncInfo) -> List[str]:
     return lits
 
 
+def _text_literals(repo: Repo, f: FuncInfo) -> List[str]:
+    """the literal fragments of the text the writer returns (templates, separators, f-string parts, whatever way the text is put
+    together); all string literals of the function when the construction of some returned text is not interpreted"""
+    from .. import strshape as S
+    rets = [x for x in L.func_returns(f) if x.value is not None]
+    if not rets:
+        return _fn_literals(repo, f)
+    ev = U.Evaluator(repo, f)
+    lits: List[str] = []
+    for x in rets:
+        try:
+            sh = ev.string(x.value)
+        except Exception:
+            return _fn_literals(repo, f)
+        if S.unknowns(sh):
+            return _fn_literals(repo, f)
+        lits += S.literals(sh)
+    return lits
+
+
 def rule_operand_kinds(repo: Repo) -> RuleResult:
     from .c02 import ClassDispatch
     r = RuleResult("C08.operands", "the condition printer prints operands of all three kinds (literal, numeric, nested) and all of them reach the text",
                    "each action's precondition denotes the same formula as the original")
-    f = L.fn(repo, PRINT)
+    f = U.fn(repo, PRINT)
     p = L.prov(repo, f)
     loops = [n for n in ast.walk(f.node) if isinstance(n, ast.For) and any(x == ("self", "attr:operands") for x in p.trace(n.iter))]
     comps = [n for n in ast.walk(f.node) if isinstance(n, (ast.ListComp, ast.SetComp, ast.GeneratorExp))
@@ -96,6 +117,7 @@ def rule_operand_kinds(repo: Repo) -> RuleResult:
         reaches = False
         handled = False
         mro = repo.mro(cls)
+        views: Set[str] = set()
         for lp in loops:
             D = ClassDispatch(repo, f, p, lp)
             if not D.tests:
@@ -105,6 +127,7 @@ def rule_operand_kinds(repo: Repo) -> RuleResult:
             under = D.under(cls)
             for rt in rets:
                 tr = p.trace(rt.value, under=under)
+                views |= _views(tr, elem)
                 # content that this iteration puts into lists / strings which the returned text is built from
                 if any(x[:3] == elem and any(st.startswith("in:") for st in x[3:]) or x[:3] == elem and len(x) > 3 for x in tr):
                     # the flow must pass a statement executed for this class
@@ -126,14 +149,41 @@ def rule_operand_kinds(repo: Repo) -> RuleResult:
                 handled = True
                 if any(any(st == "in:elt" for st in x) or True for rt in rets for x in p.trace(rt.value) if x[:3] == elem):
                     reaches = True
+                    for rt in rets:
+                        views |= _views(p.trace(rt.value), elem)
         if not handled:
             r.fail(Finding("C08.operands", f, f"operand-kind:{cls}", f"operands of class {cls} are not printed"))
+        elif reaches and views and not (views & WHOLE_VIEWS) and not (PART_VIEWS[cls] <= views):
+            r.fail(Finding("C08.operands", f, f"operand-kind-partial:{cls}", f"operands of class {cls} reach the text only through {sorted(views)}: "
+                           f"neither the operand's own text (untyped_representation / str / print / to_pddl) nor all of {sorted(PART_VIEWS[cls])}"))
         elif reaches:
             r.ok({"class": cls, "reaches_text": True})
         else:
             r.fail(Finding("C08.operands", f, f"operand-kind-dropped:{cls}", f"operands of class {cls} are collected but never reach the returned text"))
     r.require_sites(3)
     return r
+
+
+# the operand's own text, whichever printer is used for it
+WHOLE_VIEWS = {"attr:untyped_representation", "arg0:str", "call:__str__", "arg0:format", "arg0:repr", "call:__repr__", "call:print", "call:_print_self",
+               "call:to_pddl", "call:to_mathematical", "call:__copy__", "call:copy", "attr:lifted_untyped_representation"}
+# a text put together from the operand's parts must use at least these
+PART_VIEWS = {"Predicate": {"attr:name", "attr:signature"}, "Precondition": {"attr:binary_operator", "attr:operands"},
+              "NumericalExpressionTree": {"attr:root"}}
+
+
+def _views(paths, elem) -> Set[str]:
+    """how the operand is looked at on its way into the text: the first step after the element that is not mere storage"""
+    out: Set[str] = set()
+    for x in paths:
+        if x[:len(elem)] != elem:
+            continue
+        for st in x[len(elem):]:
+            if st.startswith("in:") or st in ("elem", "item") or st.startswith(("item:", "unpack:", "slice:")):
+                continue
+            out.add(st)
+            break
+    return out
 
 
 def _safe(p, e):
@@ -147,7 +197,7 @@ def rule_polarity(repo: Repo, rid: str = "C08.polarity") -> RuleResult:
     from .. import strshape as S
     r = RuleResult(rid, "negative literal text = '(not ' + positive literal text + ')'", "a literal is printed with its polarity")
     for spec in ("Predicate.untyped_representation", "GroundedPredicate.untyped_representation", "GroundedPredicate.__str__"):
-        f = L.fn(repo, spec)
+        f = U.fn(repo, spec)
         g = C.cfg_of(f.node)
         p = L.prov(repo, f)
         G = L.Guards(f, lambda e: "pos" if isinstance(e, ast.Attribute) and e.attr == "is_positive" and isinstance(e.ctx, ast.Load) else None)
@@ -155,7 +205,7 @@ def rule_polarity(repo: Repo, rid: str = "C08.polarity") -> RuleResult:
         if "pos" not in G.atoms_seen:
             r.fail(Finding(rid, f, "polarity-ignored", f"{spec} does not look at is_positive"))
             continue
-        ev = S.Evaluator(repo, f)
+        ev = U.Evaluator(repo, f)
 
         def hole(n):
             tr = _safe(p, n)
@@ -186,20 +236,23 @@ def rule_polarity(repo: Repo, rid: str = "C08.polarity") -> RuleResult:
 
 
 def parser_heads(repo: Repo, specs: List[str]) -> Set[str]:
+    """the string constants the readers compare a token with: written in place or folded from constants (below), or reaching the
+    comparison / the dict lookup through a table of (keyword, handler) rows or a dict of handlers (U.heads_of)"""
     heads: Set[str] = set()
     for spec in specs:
-        f = L.fn(repo, spec)
-        for n in ast.walk(f.node):
-            if isinstance(n, ast.Compare) and len(n.ops) == 1:
-                c = n.comparators[0]
-                if isinstance(n.ops[0], (ast.Eq, ast.NotEq)):
-                    ok, v = repo.fold(c, f.mod.name)
-                    if ok and isinstance(v, str):
-                        heads.add(v)
-                elif isinstance(n.ops[0], (ast.In, ast.NotIn)):
-                    ok, v = repo.fold(c, f.mod.name)
-                    if ok and isinstance(v, list):
-                        heads |= {x for x in v if isinstance(x, str)}
+        for f in (L.fn(repo, spec), U.fn(repo, spec)):
+            for n in ast.walk(f.node):
+                if isinstance(n, ast.Compare) and len(n.ops) == 1:
+                    c = n.comparators[0]
+                    if isinstance(n.ops[0], (ast.Eq, ast.NotEq)):
+                        ok, v = repo.fold(c, f.mod.name)
+                        if ok and isinstance(v, str):
+                            heads.add(v)
+                    elif isinstance(n.ops[0], (ast.In, ast.NotIn)):
+                        ok, v = repo.fold(c, f.mod.name)
+                        if ok and isinstance(v, list):
+                            heads |= {x for x in v if isinstance(x, str)}
+            heads |= U.heads_of(repo, f)
     return heads
 
 
@@ -213,8 +266,8 @@ def rule_keywords(repo: Repo) -> RuleResult:
     # keywords matched structurally rather than by a head test
     heads |= {"define"}
     for w in writers:
-        f = L.fn(repo, w)
-        kw = T.keywords(_fn_literals(repo, f)) - {"<", ">", "<=", ">="}
+        f = U.fn(repo, w)
+        kw = T.keywords(_text_literals(repo, f)) - {"<", ">", "<=", ">="}
         r.site(f.qn)
         unknown = sorted(k for k in kw if k not in heads)
         if unknown:
@@ -235,12 +288,12 @@ def rule_balance(repo: Repo, rid: str, sites: List[str]) -> RuleResult:
     from .. import strshape as S
     r = RuleResult(rid, "the literal parts of every writer template contain as many '(' as ')'", "the text has balanced parentheses, so it can be read back at all")
     for spec in sites:
-        f = L.fn(repo, spec)
+        f = U.fn(repo, spec)
         r.site(f.qn)
         # per alternative of every returned text; whole function when the construction is not interpreted
         rets = [x for x in L.func_returns(f) if x.value is not None]
         units: List[Tuple[str, List[str]]] = []
-        ev = S.Evaluator(repo, f)
+        ev = U.Evaluator(repo, f)
         interpretable = bool(rets)
         for x in rets:
             try:
@@ -273,7 +326,7 @@ def rule_order(repo: Repo) -> RuleResult:
     bad_steps = ("arg0:sorted", "arg0:reversed", "arg0:set", "arg0:frozenset", "call:sort")
     for spec in ("DomainExporter.write_action", "Predicate.untyped_representation", "Predicate.__str__", "PDDLFunction.__str__",
                  "PDDLFunction.untyped_representation", "Action.__str__"):
-        f = L.fn(repo, spec)
+        f = U.fn(repo, spec)
         p = L.prov(repo, f)
         r.site(f.qn)
         offenders = []
@@ -299,7 +352,7 @@ def rule_order(repo: Repo) -> RuleResult:
 
 def rule_options(repo: Repo) -> RuleResult:
     r = RuleResult("C08.options", "print options (should_simplify, decimal_digits) are passed on at every nested print", "the exporter asks for unsimplified text; nested conditions must honour it")
-    f = L.fn(repo, PRINT)
+    f = U.fn(repo, PRINT)
     opts = [x for x in f.params if x in ("should_simplify", "decimal_digits")]
     if len(opts) != 2:
         raise AnalysisError(f"{PRINT}: print options not found")
@@ -376,9 +429,9 @@ def rule_typedparams(repo: Repo, rid: str = "C08.typedparams", sites: Optional[L
     r = RuleResult(rid, "in a typed list every entry is written as '<name> - <type>' on every alternative (no entry may omit its type)",
                    "PDDL typed lists are grouped: an entry without '- type' takes the type of the next typed entry")
     for spec in (sites or TYPED_LIST_SITES):
-        f = L.fn(repo, spec)
+        f = U.fn(repo, spec)
         p = L.prov(repo, f)
-        ev = S.Evaluator(repo, f)
+        ev = U.Evaluator(repo, f)
         r.site(f.qn)
         entries = []          # repetitions over the signature / the call objects whose body carries literal text
         for rt in [x for x in L.func_returns(f) if x.value is not None]:
@@ -403,7 +456,10 @@ def rule_typedparams(repo: Repo, rid: str = "C08.typedparams", sites: Optional[L
                 if len(hs) < 2 or not any(" - " in l for l in lits):
                     bad.append(S.render(alt, lambda n: unparse(n, 30)))
         if not judged:
-            raise AnalysisError(f"{spec}: typed-list entry template not found")
+            # the lists over the signature were found and interpreted, none of them has any text between its holes: bare names
+            r.fail(Finding(rid, f, "entry-without-type", f"{spec}: the entries of the typed list are written as bare names "
+                           f"({[S.render(rep.body, lambda n: unparse(n, 30)) for rep in entries][:2]}): no entry carries '- type'"))
+            continue
         if bad:
             r.fail(Finding(rid, f, "entry-without-type", f"a typed-list entry can be written without its type: {bad[:2]}; in a grouped typed list it then takes the "
                            f"type of the following entry"))
@@ -470,10 +526,10 @@ def rule_valuetext(repo: Repo, rid: str) -> RuleResult:
     r = RuleResult(rid, "a fluent's value is written with Python's round-trip float text (no format spec, no rounding)",
                    "the same fluents with the same values after reading the text back")
     for spec in ("PDDLFunction.state_representation", "PDDLFunction.state_typed_representation"):
-        f = L.fn(repo, spec)
+        f = U.fn(repo, spec)
         p = L.prov(repo, f)
         r.site(f.qn)
-        ev = S.Evaluator(repo, f)
+        ev = U.Evaluator(repo, f)
         holes = []
         for rt in [x for x in L.func_returns(f) if x.value is not None]:
             sh = ev.string(rt.value)
